@@ -404,6 +404,43 @@ func runC11(w *mon.W) {
 		}
 	}
 
+	// like over a two-letter alphabet: wildcards followed by self-overlapping literals
+	for it := 0; it < w.Share(w.Pick(6000, 100000)); it++ {
+		mk := func(n int, alpha string) string {
+			b := make([]byte, n)
+			for i := range b {
+				b[i] = alpha[r.IntN(len(alpha))]
+			}
+			return string(b)
+		}
+		str := mk(r.IntN(8), "ab")
+		pat := mk(1+r.IntN(6), "ab*")
+		if r.IntN(3) == 0 && len(str) > 0 {
+			pat = "*" + str[r.IntN(len(str)):]
+		}
+		d := ref.Map(ref.E("s", ref.Str(str)))
+		st := ref.Stmt{Kind: "like", Sel: ref.Sel{{Kind: ref.SField, Name: "s"}}, Pat: pat}
+		if r.IntN(4) == 0 {
+			st = ref.Stmt{Kind: "not", Subs: []ref.Stmt{st}}
+		}
+		p := ref.Policy{st}
+		t, _ := ref.EvalPolicy(p, d)
+		bp, ok := c11Build(w, p)
+		if !ok || t == ref.Unresolved {
+			continue
+		}
+		got, ok := c11Match(w, bp, d.Node(), it)
+		if !ok {
+			continue
+		}
+		w.Cover("a/kind/like")
+		w.Distinct("like", pat, str)
+		if got.match != (t == ref.True) {
+			w.Violate(fmt.Sprintf("a/match=%v/model=%s/like", got.match, t), fmt.Sprintf("Match = %v but the classical reading gives %s for %s on %s", got.match, t, p, d),
+				map[string]any{"policy": p.String(), "data": d.String(), "match": got.match, "model": t.String()})
+		}
+	}
+
 	// ---------- (b)-(f) on mixed present / missing / optional-missing data
 	nb := w.Share(w.Pick(10000, 300000))
 	for it := 0; it < nb; it++ {
